@@ -1150,6 +1150,9 @@ class Num:
             if taken is not None:
                 return self.val(n["a"][1] if taken else n["a"][2], st)
             c = self.val(n["a"][0], st)
+            tv_ = self.truth(st, c)
+            if tv_ is not None:
+                return self.val(n["a"][1] if tv_ else n["a"][2], st)  # the condition is decided on this path
             x, y = self.val(n["a"][1], st), self.val(n["a"][2], st)
             if x is not None and y is not None and x == y:
                 return x
@@ -1272,7 +1275,15 @@ class Num:
                     m_ = 2 ** k_
                     if all(cf % m_ == 0 for cf in hi_.t.values()) and entails(st, -lo_) and entails(st, lo_ - (m_ - 1)) and entails(st, -hi_):
                         return self.norm(hi_ + lo_, t, st, "or")
-            return Poly.atom(self.fresh(st, "or", t)) if ("w" in t or t.get("ptr")) else None
+            if not ("w" in t or t.get("ptr")):
+                return None
+            r_ = Poly.atom(self.fresh(st, "or", t))
+            if entails(st, -a) and entails(st, -b):
+                # for non-negative operands: max(a, b) <= a | b <= a + b  (so `(a | b) <= M` bounds both operands)
+                st.add(a - r_)
+                st.add(b - r_)
+                st.add(r_ - a - b)
+            return r_
         if op in ("/", "%", ">>", "<<", "&"):
             if op == ">>" and b.is_const() and 0 <= b.cval() < 64:
                 op, b = "/", Poly.const(2 ** b.cval())
